@@ -22,12 +22,24 @@ CLAIMED = {
     'C07': ('CBMC/DFCC function + loop contracts over a ghost-versioned state model, on code extracted from /repo each run',
             'proof for lsearchk_t::get/update and the backtrack, LeMarechal, Fletcher(+zoom) bodies: success is returned only right after the advertised predicates were evaluated true on the current trial point with the returned step, the state is then the valid evaluation at x+t*d, a non-descent direction is refused with the state untouched, every loop terminates',
             'state.update(x) = one evaluation at x (assumed), interpolation havocked, parameters inside their registered domains; success on quadratics and CG_DESCENT/More-Thuente bodies not decided', '7/C07'),
+    'C08': ('CBMC/DFCC function + loop contracts on code extracted from /repo each run',
+            'proof for the missing-value bit mask (setbit/getbit/optional/make_mask over all 2^64 sample values), the datasource iterator protocol, dataset_t::check(samples)/check(feature)/byfeature range guards (a sample or feature index outside the valid range throws and is never read), the one-hot flatten of single-label features and dataset_t::select reaching its reader only behind the guards; agreement of all dataset views, drop/shuffle histories and the other storage kinds are not decided',
+            'Eigen min/max/segment/coefficient access and the dataset_t::update() bookkeeping invariant assumed (listed in the evidence)', '7/C08'),
+    'C09': ('CBMC/DFCC function + loop contracts on code extracted from /repo each run; bounded SMT VCs for the regularisation terms',
+            'proof that sum_reduce/min_reduce combine every per-thread accumulator exactly once and normalise once, that the linear and gboost accumulators clear/add/divide all their fields, and that the dataset iterators hand map() the sample count and batch size and each task the inputs/targets of exactly its range; regularisation formulas only bounded (|W| <= 3, reported as bounded); loss values, re-association and every concurrency effect are not decided',
+            'pool_t::map by the contract proved in C17; Eigen coefficient-wise semantics assumed', '7/C09'),
     'C11': ('CBMC/DFCC function contract on code extracted from /repo each run',
             'proof of the early-stopping monitor transition (whole abstract state in the postcondition, frame = its three members) for every observation and prior state; statistics-equality clauses not decided',
             'mean_error assumed deterministic; clang AST + cxx2c printer + CBMC trusted', '7/C11'),
+    'C14': ('CBMC/DFCC function + loop contracts with Eigen coefficient-wise statements lifted to a scalar kernel at a ghost position, on code extracted from /repo each run; SMT lemmas over the reals',
+            'proof for the scaling statistics: constructor, ::update, ::done (neutral scaling for N<=1 or disabled columns; div = 1/mul with the same denominator; multipliers >= eps), scale/upscale/make_scaling use the same (offset, factor) per mode with NaN->0 after scaling, and the affine up-scaling of (W, b); lemmas over R: upscale(scale(v)) = v and W\'x+b\' = upscale(W scale(x) + b) for all dimensions; rounding-error magnitudes not decided',
+            'Eigen coefficient-wise operator semantics (engine/eigencw.py closed list), sqrt/min/max facts, one IEEE subtraction fact assumed; double treated as real in the lemmas', '7/C14'),
     'C16': ('weakest-precondition VCs over mathematical integers (z3/cvc5), one contract per template recursion level, overflow as explicit obligations',
             'proof that index/index0/size/dims0 and every level of get_index/get_index0/product/get_dims0 (ranks 1..5) equal the row-major spec functions without intermediate overflow, plus bijection/monotonicity lemmas on the spec functions',
             'tensor invariant (extents >= 0, suffix products <= 2^62) is a stated precondition; std::get/std::array semantics assumed', '7/C16'),
+    'C17': ('CBMC/DFCC function + loop contracts (sequential, monitor semantics for condition_variable::wait) and SMT VCs over Int, on code extracted from /repo each run',
+            'proof that pool_t::map generates tasks that tile [0,elements) exactly once for every elements/chunk size (count = reserve count), passes worker ids below the pool size, enqueues under the lock and returns only after the section waited for every task; worker loop pops only a non-empty queue and exits only on stop; constructor/destructor/section protocol; ALL interleaving claims (exactly-once execution across workers, no concurrent reuse of a worker id, completion under every schedule, deadlock-free shutdown) are NOT decided by this technique',
+            'std::mutex/condition_variable/deque/packaged_task/future basics assumed; task generation and sequential worker protocol only', '7/C17'),
     'C20': ('CBMC/DFCC function contract on code extracted from /repo each run',
             'proof that histogram_t::bin(v) equals the counting rule #{j: t_j <= v} for every finite real v / integer |v|<=2^53 and every sorted threshold list of symbolic length',
             'std::upper_bound partition-point contract assumed (ghost index); thresholds sorted, not NaN', '7/C20'),
